@@ -6,6 +6,7 @@ import S3db.Model.Table
 import S3db.Gen.Crdt
 import S3db.Gen.Key
 import S3db.Model.Proto
+import S3db.Model.Txn
 import S3db.Gen.Facts
 /-!
 # Line-protocol driver for the correspondence checks
@@ -232,6 +233,44 @@ def protoStep (st : Sys) (args : List String) : Sys × String :=
   | ["state"] => (st, s!"cur=[{showNats st.bucket.current}] mrg=[{showNats st.bucket.merged}]")
   | _ => (st, "bad-op")
 
+/-! ## connection attributes (clock readings are symbolic: negative, fresh per reading) -/
+
+structure ConnState where
+  c : S3db.Txn.Conn := {}
+  clock : Int := 0          -- number of clock readings so far
+  last : Option Int := none  -- stamp of the previous statement
+
+open S3db.Txn in
+def parseAssign (s : String) : Option Assign :=
+  if s == "x" then some .noChange
+  else if s == "-" then some .clear
+  else if s == "bad" then some .malformed
+  else s.toInt?.map .set
+
+open S3db.Txn in
+def connStep (st : ConnState) (args : List String) : ConnState × String :=
+  let F := S3db.Gen.facts
+  let fresh := -(st.clock + 1)
+  match args with
+  | ["reset"] => ({}, "ok")
+  | ["begin"] => ({ st with c := st.c.begin F fresh, clock := st.clock + 1 }, "ok")
+  | ["end"] => ({ st with c := st.c.endTx F }, "ok")
+  | ["set", d, w] =>
+    match parseAssign d, parseAssign w with
+    | some d, some w =>
+      match st.c.update F d w with
+      | some c' => ({ st with c := c' }, "ok")
+      | none => (st, "err")
+    | _, _ => (st, "bad-op")
+  | ["read"] =>
+    let sh (o : Option Int) : String := match o with | none => "N" | some v => if v < 0 then "clock" else toString v
+    (st, sh st.c.deadline ++ " " ++ sh st.c.writeTime)
+  | ["stmt"] =>
+    let t := st.c.stmtTime F fresh
+    let out := if t < 0 then s!"clock same={if st.last == some t then 1 else 0}" else s!"t={t}"
+    ({ st with clock := st.clock + 1, last := some t }, out)
+  | _ => (st, "bad-op")
+
 /-! ## keys -/
 
 def showOptInt (o : Option Int) : String := match o with | some i => toString i | none => "panic"
@@ -248,6 +287,7 @@ structure State where
   kv : KvState := []
   tbl : TblState := []
   proto : S3db.Proto.Sys := {}
+  conn : ConnState := {}
 
 def step (st : State) (line : String) : State × String :=
   match (line.trimAscii.toString.splitOn " ").filter (· ≠ "") with
@@ -255,6 +295,7 @@ def step (st : State) (line : String) : State × String :=
   | "kv" :: rest => let (k, out) := kvStep st.kv rest; ({ st with kv := k }, out)
   | "key" :: rest => (st, keyStep rest)
   | "row" :: rest => (st, rowStep rest)
+  | "conn" :: rest => let (c, out) := connStep st.conn rest; ({ st with conn := c }, out)
   | "proto" :: rest => let (p, out) := protoStep st.proto rest; ({ st with proto := p }, out)
   | "tbl" :: rest => let (t, out) := tblStep st.tbl rest; ({ st with tbl := t }, out)
   | "reset" :: _ => ({}, "ok")
